@@ -484,55 +484,65 @@ static std::string dirname_of(const std::string &p)
     return s == std::string::npos ? "." : p.substr(0, s);
 }
 
+static std::vector<std::string> run_lines(const std::string &cmd)
+{
+    std::vector<std::string> out;
+    FILE *p = popen(cmd.c_str(), "r");
+    if (!p) _exit(2);
+    char line[16384];
+    while (fgets(line, sizeof line, p)) out.push_back(line);
+    pclose(p);
+    return out;
+}
+
 static void load_statics()
 {
-    // names: writable data/bss symbols defined in body.o; addresses: the same names in this (non-PIE) executable
+    // names: OBJECT symbols of body.o that live in a writable, non-TLS section (.data*, .bss*, including the COMDAT
+    // sections of statics inside inline functions); addresses: the same names in this (non-PIE) executable
     char self[4096];
     ssize_t n = readlink("/proc/self/exe", self, sizeof self - 1);
     if (n <= 0) _exit(2);
     self[n] = 0;
     g_exe_dir = dirname_of(self);
-    std::set<std::string> names;
-    {
-        std::string cmd = "nm -S --defined-only '" + g_exe_dir + "/body.o' 2>/dev/null";
-        FILE *p = popen(cmd.c_str(), "r");
-        if (!p) _exit(2);
-        char line[8192];
-        while (fgets(line, sizeof line, p)) {
-            char a[64], b[64], ty[8], nm[8000];
-            int k = sscanf(line, "%63s %63s %7s %7999s", a, b, ty, nm);
-            if (k == 4 && strchr("bBdDcC", ty[0])) names.insert(nm);
-            else if (k == 3) {
-                // no size column
-                if (strchr("bBdDcC", b[0])) names.insert(ty);
-            }
-        }
-        pclose(p);
+    std::set<int> wsec;
+    for (auto &l : run_lines("readelf -SW '" + g_exe_dir + "/body.o' 2>/dev/null")) {
+        // "  [12] .bss._ZZ...  NOBITS  0000 000040 000100 00 WAG 0 0 16"
+        size_t lb = l.find('['), rb = l.find(']');
+        if (lb == std::string::npos || rb == std::string::npos) continue;
+        int idx = atoi(l.c_str() + lb + 1);
+        char name[4096], type[64], addr[64], off[64], size[64], es[64], flags[64];
+        if (sscanf(l.c_str() + rb + 1, "%4095s %63s %63s %63s %63s %63s %63s", name, type, addr, off, size, es, flags) != 7) continue;
+        bool writable = strchr(flags, 'W') && !strchr(flags, 'T');
+        std::string nm = name;
+        if (writable && (nm.compare(0, 5, ".data") == 0 || nm.compare(0, 4, ".bss") == 0)) wsec.insert(idx);
     }
-    std::string cmd = std::string("nm -S --defined-only '") + self + "' 2>/dev/null";
-    FILE *p = popen(cmd.c_str(), "r");
-    if (!p) _exit(2);
-    char line[8192];
-    while (fgets(line, sizeof line, p)) {
-        char a[64], b[64], ty[8], nm[8000];
-        if (sscanf(line, "%63s %63s %7s %7999s", a, b, ty, nm) != 4) continue;
-        if (!names.count(nm)) continue;
-        std::string mangled = nm;
-        // not library state: the harness' own table, C++ runtime bookkeeping
+    std::set<std::string> names;
+    for (auto &l : run_lines("readelf -sW '" + g_exe_dir + "/body.o' 2>/dev/null")) {
+        // "   Num:    Value          Size Type    Bind   Vis      Ndx Name"
+        char num[32], val[64], size[64], type[32], bind[32], vis[32], ndx[32], name[8000];
+        if (sscanf(l.c_str(), "%31s %63s %63s %31s %31s %31s %31s %7999s", num, val, size, type, bind, vis, ndx, name) != 8) continue;
+        if (strcmp(type, "OBJECT") != 0) continue;
+        if (!isdigit((unsigned char)ndx[0]) || !wsec.count(atoi(ndx))) continue;
+        names.insert(name);
+    }
+    for (auto &l : run_lines(std::string("readelf -sW '") + self + "' 2>/dev/null")) {
+        char num[32], val[64], size[64], type[32], bind[32], vis[32], ndx[32], name[8000];
+        if (sscanf(l.c_str(), "%31s %63s %63s %31s %31s %31s %31s %7999s", num, val, size, type, bind, vis, ndx, name) != 8) continue;
+        if (strcmp(type, "OBJECT") != 0 || !names.count(name)) continue;
+        std::string mangled = name;
+        // not library state: the harness' own table, C++ runtime bookkeeping of the TU
         if (mangled.find("OP_NAMES") != std::string::npos) continue;
-        if (mangled.compare(0, 4, "_ZTV") == 0 || mangled.compare(0, 4, "_ZTI") == 0 || mangled.compare(0, 4, "_ZTS") == 0) continue;
-        if (mangled.compare(0, 5, "_ZGVN") == 0 || mangled.compare(0, 5, "_ZGVZ") == 0) {
-            // guard variable of a function-local static: the static itself is listed too
-        }
-        if (mangled.find("__tsan") != std::string::npos || mangled.find("tsan.module") != std::string::npos) continue;
-        if (mangled.find("St8ios_base") != std::string::npos || mangled.find("__ioinit") != std::string::npos) continue;
+        if (mangled.find("__tsan") != std::string::npos || mangled.find("__ioinit") != std::string::npos) continue;
+        bool dup = false;
+        for (auto &g : g_statics) dup = dup || g.name == mangled;
+        if (dup) continue;
         StaticSym s;
         s.name = mangled;
-        s.addr = strtoull(a, nullptr, 16);
-        s.size = strtoull(b, nullptr, 16);
+        s.addr = strtoull(val, nullptr, 16);
+        s.size = strtoull(size, nullptr, 10);
+        if (!s.size) s.size = 1;
         g_statics.push_back(s);
     }
-    pclose(p);
     for (auto &s : g_statics) s.image.assign((const char *)s.addr, s.size);
 }
 
@@ -577,24 +587,24 @@ static void run_solo(int op, int salt)
         progs[i][0] = op;
         nops[i] = i == salt ? 1 : 0;
     }
-    sx::Exec e;
-    e.start(salt + 1, progs, nops);
-    e.finish();
-    sx::Thread &t = sx::g_thr[salt];
-    s.result = t.results[0];
-    s.trace = t.trace[0];
-    s.naccess = t.naccess[0];
-    s.npoints = t.npoints[0];
-    s.have = true;
-    // determinism of the machinery itself: a second solo run must reproduce result and trace
-    sx::Exec e2;
-    e2.start(salt + 1, progs, nops);
-    e2.finish();
-    if (s.result != t.results[0] || s.trace != t.trace[0]) {
-        fprintf(stderr, "schedx: solo run of op %d (%s) is not reproducible (result %s, trace %s)\n", op, c20_op_name(op),
-                s.result == t.results[0] ? "same" : "differs", s.trace == t.trace[0] ? "same" : "differs");
-        _exit(2);
+    // The reference is a solo run that a further solo run reproduces exactly (result and access trace): the first call of
+    // an operation may legitimately differ from later ones (one-time initialisation inside libstdc++, lazily built
+    // tables), so up to 4 warm-up runs are allowed before the machinery gives up.
+    for (int attempt = 0; attempt < 5; ++attempt) {
+        sx::Exec e;
+        e.start(salt + 1, progs, nops);
+        e.finish();
+        sx::Thread &t = sx::g_thr[salt];
+        bool same = s.have && s.result == t.results[0] && s.trace == t.trace[0];
+        s.result = t.results[0];
+        s.trace = t.trace[0];
+        s.naccess = t.naccess[0];
+        s.npoints = t.npoints[0];
+        s.have = true;
+        if (same) return;
     }
+    fprintf(stderr, "schedx: solo runs of op %d (%s) never became reproducible\n", op, c20_op_name(op));
+    _exit(2);
 }
 
 // ------------------------------------------------------------------------------------------------ one execution = programs + schedule
